@@ -433,7 +433,28 @@ func (e *Engine) doReturn(st *State, th *Thread, ret Value) {
 	// returning from a deferred call: caller stays on its RunDefers instruction (or is unwinding)
 	if th.Panicking {
 		e.unwind(st, th)
+	} else if caller.recovering {
+		e.finishRecover(st, th)
 	}
+}
+
+// finishRecover runs the remaining deferred calls of a frame whose panic was recovered and then
+// returns from it (through the function's Recover block, which reads the named results).
+func (e *Engine) finishRecover(st *State, th *Thread) {
+	fr := th.top()
+	if len(fr.Defers) > 0 {
+		d := fr.Defers[len(fr.Defers)-1]
+		fr.Defers = fr.Defers[:len(fr.Defers)-1]
+		e.invoke(st, th, d.fn, d.args, nil, nil)
+		return
+	}
+	fr.recovering = false
+	if fr.Fn.Recover != nil {
+		fr.Block = fr.Fn.Recover
+		fr.Idx = 0
+		return
+	}
+	e.doReturn(st, th, e.zeroResults(fr.Fn))
 }
 
 // goPanic starts unwinding with a Go panic value.
@@ -451,16 +472,12 @@ func (e *Engine) unwind(st *State, th *Thread) {
 	for len(th.Frames) > 0 {
 		fr := th.top()
 		if th.Recovered {
-			// recover() was called by a deferred function of this frame: return normally from fr
+			// recover() was called by a deferred function of this frame: the panic stops, the
+			// remaining deferred calls of the frame still run, then the frame returns normally
 			th.Recovered = false
 			th.Panicking = false
-			// named results: the function's Recover block, if any
-			if fr.Fn.Recover != nil {
-				fr.Block = fr.Fn.Recover
-				fr.Idx = 0
-				return
-			}
-			e.doReturn(st, th, e.zeroResults(fr.Fn))
+			fr.recovering = true
+			e.finishRecover(st, th)
 			return
 		}
 		if len(fr.Defers) > 0 {
